@@ -262,9 +262,19 @@ def reader_drains(P, R, rule='C03.MPT.3'):
     before it returns.  The line loop is left only where the line reader says there is no further complete line (a
     batch limit or any other early exit leaves events unprocessed until the server happens to write again)."""
     rd, disp = core.reader_dispatch(P)
+    linevars = {t.ev['lhs']['name'] for t in rd.stores() if t.ev['k'] == 'store' and is_var(t.ev.get('lhs')) and any(isinstance(x, dict) and x.get('k') == 'callref' and x.get('callee') == 'evbuffer_readln' for x in walk(t.ev.get('rhs') or {}))}
+
     def has_readln(b):
         c = rd.term_cond(b)
-        return c is not None and any(isinstance(x, dict) and x.get('k') == 'callref' and x.get('callee') == 'evbuffer_readln' for x in walk(c))
+        if c is None:
+            return False
+        if any(isinstance(x, dict) and x.get('k') == 'callref' and x.get('callee') == 'evbuffer_readln' for x in walk(c)):
+            return True
+        # `line = evbuffer_readln(...); if (line == NULL) break;`: the test of the variable right after the call
+        from ..model import rel as _rel
+        r = _rel(c, True)
+        return bool(r) and is_var(r[0]) and r[0]['name'] in linevars and const_of(r[2]) == 0 and any(
+            t.ev['k'] == 'store' and is_var(t.ev.get('lhs'), r[0]['name']) and (t.ev.get('rhs') or {}).get('callee') == 'evbuffer_readln' for t in rd.block_sites(b))
     heads = [b for b in rd.reachable_blocks() if has_readln(b)]
     if not heads:
         raise AnalysisBroken('the input handler no longer takes its lines from evbuffer_readln in a loop condition')
